@@ -539,20 +539,22 @@ class Harness:
         step = spec["script"][st["pos"]]
         st["pos"] += 1
         op = step["op"]
-        self.log("client", conn=ci, op=op, data=str(step.get("data"))[:80])
+        self.log("client", conn=ci, op=op, data=str(step.get("batch") or step.get("data"))[:80])
         if op == "send":
-            data = step["data"]
-            if isinstance(data, dict):
-                data = dict(data)
-                # late binding of task ids: {"$tid": k} refers to the k-th id handed out on this run
-                if "deps_idx" in data:
-                    data["deps"] = [self.tid_of_idx[i] for i in data.pop("deps_idx") if i in self.tid_of_idx]
-                if "tid_idx" in data:
-                    i = data.pop("tid_idx")
-                    data["tid"] = self.tid_of_idx.get(i, 99999)
-                raw = (json.dumps(data) + "\n").encode()
-            else:
-                raw = data.encode("latin-1") if isinstance(data, str) else bytes(data)
+            # one write of the client may carry several requests (pipelining): "batch" = list of messages
+            raw = b""
+            for data in step.get("batch") or [step["data"]]:
+                if isinstance(data, dict):
+                    data = dict(data)
+                    # late binding of task ids: {"$tid": k} refers to the k-th id handed out on this run
+                    if "deps_idx" in data:
+                        data["deps"] = [self.tid_of_idx[i] for i in data.pop("deps_idx") if i in self.tid_of_idx]
+                    if "tid_idx" in data:
+                        i = data.pop("tid_idx")
+                        data["tid"] = self.tid_of_idx.get(i, 99999)
+                    raw += (json.dumps(data) + "\n").encode()
+                else:
+                    raw += data.encode("latin-1") if isinstance(data, str) else bytes(data)
             if not st["eof"]:
                 st["reader"].feed_data(raw)
         elif op == "stall":
